@@ -103,7 +103,19 @@ class Run(object):
             d = socks.resolve(self.ep, "example.com")
         else:
             d = socks.resolve_ptr(self.ep, "1.2.3.4")
-        d.addBoth(self.fired.append)
+        self.nest = 0
+
+        def connected(v):
+            # the application's "connected" callback: with nest > 0 it causes more of the stream to arrive while it runs
+            self.fired.append(v)
+            if self.nest and not isinstance(v, failure.Failure):
+                k, self.nest = self.nest, 0
+                chunk = self.stream[self.pos:self.pos + k]
+                self.pos += k
+                self.proto.dataReceived(chunk)
+            else:
+                self.nest = 0
+        d.addBoth(connected)
         self.proto, self.tr = self.ep.proto, self.ep.tr
 
     def obs(self):
@@ -175,9 +187,10 @@ class Run(object):
     def step(self, e):
         a = e["a"]
         try:
-            if a == "Deliver":
+            if a in ("Deliver", "DeliverNested"):
                 chunk = self.stream[self.pos:self.pos + e["n"]]
                 self.pos += e["n"]
+                self.nest = e.get("k", 0)
                 try:
                     self.proto.dataReceived(chunk)
                 except BaseException:
